@@ -98,6 +98,26 @@ Theorem c07_order_idempotent : forall (A : Type) (key : A -> Q) (l : list A),
 Proof. intros A key l. split; [apply sort_desc_fixed|apply sort_desc_idem]. Qed.
 Print Assumptions c07_order_idempotent.
 
+(* --- completeness of the order specification: ANY list that is sorted by the key and keeps every key class in the
+       input's order IS the priority list - c07_order and c07_order_stable leave no freedom *)
+Theorem c07_order_unique : forall (A : Type) (key : A -> Q) (l l' : list A),
+  sorted_desc key l' ->
+  (forall q, filter (fun y => Qeq_bool (key y) q) l' = filter (fun y => Qeq_bool (key y) q) l) ->
+  l' = sort_desc key l.
+Proof. exact sort_desc_unique. Qed.
+Print Assumptions c07_order_unique.
+
+(* --- composed, as the month runs: rank the herds, then feed them in that order - conservation holds for the ranked
+       list whatever the ranking key is *)
+Theorem c07_ranked_conservation : forall (key : feeder -> Q) l g f, Forall feeder_ok l -> 0 <= g -> 0 <= f ->
+  let '(_, g_left, f_left) := feed_chain (sort_desc key l) g f in
+  (0 <= g_left /\ 0 <= f_left) /\
+  sumq (map fst (used_chain (sort_desc key l) g f)) + g_left == g /\
+  sumq (map snd (used_chain (sort_desc key l) g f)) + f_left == f /\
+  Forall (fun u => 0 <= fst u /\ 0 <= snd u) (used_chain (sort_desc key l) g f).
+Proof. exact sorted_chain_conservation. Qed.
+Print Assumptions c07_ranked_conservation.
+
 Example order_stable_witness :
   sort_desc (fun p : Q * nat => fst p) [(1, 0%nat); (2, 1%nat); (1, 2%nat); (2, 3%nat)] =
   [(2, 1%nat); (2, 3%nat); (1, 0%nat); (1, 2%nat)].
